@@ -26,9 +26,15 @@ Pub(k) == IF k.kty = "oct" THEN k ELSE [k EXCEPT !.priv = 0]
 TreeClasses == IF Quick THEN {"flat", "nested", "unicode"} ELSE {"empty", "flat", "nested", "unicode", "bigint", "long"}
 Tree(w, cls) == [op |-> "BMap", b |-> 0, k |-> "set", which |-> w, map |-> 0,
                  v |-> [t |-> "json", name |-> NONE, val |-> "@tree:" \o cls, replace |-> 0, jcls |-> "objx", jm |-> <<>>, jcanon |-> NONE]]
+IntClaim(n, w) == [op |-> "BMap", b |-> 0, k |-> "set", which |-> "clm", map |-> 0,
+                    v |-> [t |-> "int", name |-> n, val |-> w, replace |-> 1, jcls |-> NONE, jm |-> <<>>, jcanon |-> NONE]]
 Gen == [op |-> "Generate", b |-> 0, slot |-> 0, lite |-> 1, hjson |-> "@H", cjson |-> "@C"]
 TimeCfg == { <<>>, <<[op |-> "BOffset", b |-> 0, claim |-> "exp", secs |-> WOf(3600)], [op |-> "BOffset", b |-> 0, claim |-> "nbf", secs |-> WOf(60)]>>,
-             <<[op |-> "BIat", b |-> 0, enable |-> 0]>> }
+             <<[op |-> "BIat", b |-> 0, enable |-> 0]>>,
+             \* expiry further away than 32 bits of seconds: a century, 2^31 + 1000 s, the year 9999, the largest time
+             <<[op |-> "BOffset", b |-> 0, claim |-> "exp", secs |-> WBig(752, 1643392)]>>,
+             <<[op |-> "BOffset", b |-> 0, claim |-> "exp", secs |-> WBig(512, 1000)], [op |-> "BOffset", b |-> 0, claim |-> "nbf", secs |-> WOf(60)]>>,
+             <<IntClaim("exp", WBig(60415, 3424639))>>, <<IntClaim("exp", WMax), IntClaim("nbf", WOf(-5))>> }
 Script(k, a, p1, p2, hc, cc, tc) ==
   << OpsOp(p1), LoadOp(<<k, Pub(k)>>), BNewOp, BSetKeyOp(IF k.alg = NONE THEN a ELSE "none", 0), Tree("hdr", hc), Tree("clm", cc) >>
   \o tc \o
